@@ -1,6 +1,6 @@
 SPECIFICATION Spec
-CONSTANTS MaxEdit = 4  MaxInv = 5  MaxKill = 0  MaxFail = 0  GenDepth = 0
-CONSTANT Flags = {"plain"}
+CONSTANTS MaxEdit = 2  MaxInv = 3  MaxKill = 1  MaxFail = 1  GenDepth = 0
+CONSTANT Flags = {"plain", "bo", "force"}
 CONSTANT Weak = {}
 VIEW view
 INVARIANT IncrementalEqClean
